@@ -85,7 +85,7 @@ def main():
             if p not in claimed:
                 continue
             args = ''
-            if only and p != 'C14' and p != 'C16' and p != 'C18' and p != 'C19' and p != 'C12':
+            if only and p != meta['property'] and p != 'C14' and p != 'C16' and p != 'C18' and p != 'C19' and p != 'C12' and p != 'C11':
                 args = ' --only ' + ' '.join(sorted(only))
             t0 = time.time()
             rc, out = sh('./check %s --tier quick --jobs 8%s' % (p, args), cwd='/verif', env=env, timeout=3600)
